@@ -183,6 +183,8 @@ func c16OwnerIdent(uid int) (apiVersion, kind, name string) {
 	switch {
 	case uid < 10:
 		return "pkg.crossplane.io/v1", "Configuration", fmt.Sprintf("pkg-%d", uid)
+	case uid >= 30 && uid < 40: // the revisions of package 3 are ProviderRevisions (parents with a runtime)
+		return "pkg.crossplane.io/v1", "ProviderRevision", fmt.Sprintf("pkg-%d-rev%d", uid/10, uid%10)
 	case uid < 90:
 		return "pkg.crossplane.io/v1", "ConfigurationRevision", fmt.Sprintf("pkg-%d-rev%d", uid/10, uid%10)
 	}
